@@ -35,7 +35,9 @@ class Stop(BaseException):
 
 
 class LineWorld(object):
-    def __init__(self, names, start, raw=False, opcode=False):
+    def __init__(self, names, start, raw=False, opcode=False, tt=None):
+        self.w_closes = False        # the reconnecting thread calls close() before connect()
+        self.tt = tt                # the transport timeout the opens are called with (0: nothing may wait)
         m = env.mods()['sync']
         self.opcode = opcode        # preempt before every bytecode instruction of _open (not only before every line)
         self.prestep = True
@@ -53,11 +55,15 @@ class LineWorld(object):
                 self.holder = None
                 self.is_id = False
 
-            def acquire(self, *a):
+            def acquire(self, blocking=True, timeout=-1):
                 me = sched.current_name()
+                nonblocking = (not blocking) or timeout == 0          # threading.Lock.acquire(True, 0) / acquire(False): do not wait
                 if self.is_id and me in w.sched.th:
-                    w.sched.boundary('acq', lambda: self.holder is None)
+                    w.sched.boundary('acq', lambda: self.holder is None or nonblocking)
+                if self.holder is not None and nonblocking:
+                    return False
                 self.holder = me
+                return True
 
             def release(self):
                 self.holder = None
@@ -127,6 +133,8 @@ class LineWorld(object):
                 # a watchdog thread that reconnects the device while the others are opening streams (one atomic step of the schedule)
                 def wbody():
                     try:
+                        if self.w_closes:
+                            self.device.close()
                         self.device.connect(read_timeout_s=1.0)
                     except Stop:
                         pass
@@ -142,7 +150,7 @@ class LineWorld(object):
                 if self.opcode:
                     sys.settrace(self.tracer)      # CPython 3.12: f_trace_opcodes is honoured only after the trace function was installed again
                 try:
-                    self.device._open(b'shell:x', None, 1, None)
+                    self.device._open(b'shell:x', self.tt, 1, None)
                 except Stop:
                     pass
                 except sched.Abort:
@@ -209,12 +217,13 @@ def replay_model_paths(ctx, start_model, paths):
     return steps
 
 
-def dfs_real(ctx, names, start, limit=None, rng=None, raw=False):
+def dfs_real(ctx, names, start, limit=None, rng=None, raw=False, tt=None, w_closes=False):
     """code->spec: all (or `limit` random) line-level schedules of the real block; returns traces."""
     traces, scheds = [], []
 
     def run(schedule):
-        w = LineWorld(names, start, raw=raw)
+        w = LineWorld(names, start, raw=raw, tt=tt)
+        w.w_closes = w_closes
         w.spawn_all()
         fan = []
         i = 0
@@ -318,11 +327,17 @@ def body(ctx):
         scheds += sc
         labels += [('3 threads random', start)] * len(tr)
     # two opens and a reconnect of the same object by a third thread, every line-level schedule
-    for start in (0, M32 - 2):
-        tr, sc = dfs_real(ctx, ['A', 'B', 'W'], start)
+    for start, wc in ((0, False), (M32 - 2, False), (5, True)):
+        tr, sc = dfs_real(ctx, ['A', 'B', 'W'], start, w_closes=wc)
         traces += tr
         scheds += sc
-        labels += [('2 threads opening + 1 thread reconnecting, exhaustive', start)] * len(tr)
+        labels += [('2 threads opening + 1 thread %s, exhaustive' % ('closing and reconnecting' if wc else 'reconnecting'), start)] * len(tr)
+    # opens called with a transport timeout of 0 / a negative one (nothing may wait - but ids still are unique)
+    for tt_ in (0, -1):
+        tr, sc = dfs_real(ctx, ['A', 'B'], 0, tt=tt_)
+        traces += tr
+        scheds += sc
+        labels += [('2 threads, transport_timeout_s=%r, exhaustive' % tt_, 0)] * len(tr)
     # bytecode-level preemption (one preemption, every instruction of _open)
     for start in (0, M32 - 1):
         tr, sc = opcode_preemptions(ctx, start)
@@ -386,12 +401,34 @@ def body(ctx):
                 ctx.extra['verdicts_of_write_fault_schedules'][v] += 1
     # an OPEN that did reach the device although its write reported a failure: the next commands must not reuse its id
     from . import c01 as c01_
+    from .. import scen as scen_
     t4, s4 = c01_.arrived_but_failed_traces(ctx, ['sync', 'async'])
     v4, r4 = tlc.validate_traces('TraceEnv', t4)
     ctx.add_tlc(r4, 'TraceEnv over %d sessions in which a write that did arrive reports a timeout' % len(t4))
     for (i, l, v) in v4:
         if v.startswith('C14.') or v in ('C04.FreshId', 'C01.NoCrossTalk', 'C01.ExactConcatenation'):
             ctx.violation(v if v.startswith('C14.') else 'C14.UniqueLiveIds(' + v + ')', dict(kind='session', mode=s4[i][0], spec=s4[i][1], write_reported_failed=s4[i][2], failing_event=l - 1))
+        else:
+            ctx.count(traces=1)
+    # a stream that stays open (a generator the caller keeps) while every other public operation runs, then more opens
+    fam = []
+    for k_, mid in enumerate([dict(api='root'), dict(api='reboot'), dict(api='stat', path='/s', st=[1, 2, 3]), dict(api='list', path='/d', entries=[]), dict(api='pull', path='/p', size=10, dest='bytesio'),
+                              dict(api='push', path='/q', size=10, src='bytesio', mtime=3), dict(api='shell', decode=False, cmd='x', chunks=[b'x'.hex()], refuse=True, read_timeout_s=1.0),
+                              dict(api='reconnect', close_first=False), dict(api='reconnect', close_first=True)]):
+        ops = [dict(api='streaming_shell', decode=False, cmd='keep', chunks=[b'k1'.hex(), b'k2'.hex(), b'k3'.hex()], take=1, hold='keep'), dict(mid),
+               dict(api='shell', decode=False, cmd='a', chunks=[b'A'.hex()]), dict(api='exec_out', decode=False, cmd='b', chunks=[b'B'.hex()])]
+        if mid['api'] != 'reconnect':
+            ops.append(dict(api='resume', gen='keep'))
+        fam.append(dict(seed=ctx.seed + 40 + k_, maxdata=4096, rid=('plus', 'same', 'mirror')[k_ % 3], frag='whole', ops=ops))
+    t5 = []
+    for sp in fam:
+        for mode in ('sync', 'async'):
+            t5.append((mode, sp, scen_.project_events(scen_.run(sp, mode, stall='raise'), sp)))
+    v5, r5 = tlc.validate_traces('TraceEnv', [t for _, _, t in t5])
+    ctx.add_tlc(r5, 'TraceEnv over %d sessions: a kept stream, another public operation, more opens' % len(t5))
+    for (i, l, v) in v5:
+        if v.startswith('C14.'):
+            ctx.violation(v, dict(kind='session', mode=t5[i][0], spec=t5[i][1], failing_event=l - 1))
         else:
             ctx.count(traces=1)
     # ids after failed opens: an operation that times out must not make a later one reuse a live id
